@@ -20,6 +20,7 @@ This class helps manage names in scope, and for simplicity we try to avoid
 conflicts between globals/non-locals/locals, even if they might work when run.
 """
 
+import builtins
 import dataclasses
 import itertools
 import keyword
@@ -29,6 +30,13 @@ from typing import Optional, Set
 _CAMEL_TO_SNAKE_RE = re.compile(r"(?<=.)([A-Z])")
 _PY_VAR_NAME_INVALID_RE = re.compile(r"[^a-z_0-9]+")
 _PY_VAR_NAME_RE = re.compile(r"[a-z][a-z_0-9]+")
+
+
+# Generated code refers to builtins such as `float`, `complex` or `dict` by
+# their bare names, so generated variables must not shadow them.
+_BUILTIN_NAMES = frozenset(
+    name for name in dir(builtins) if not name.startswith("_")
+)
 
 
 def camel_to_snake(name: str) -> str:
@@ -52,12 +60,14 @@ def py_var_name(name: str) -> Optional[str]:
 class Namespace:
   """Manages active Python instance names.
 
-  By default, the namespace will be populated with Python keywords. If you do
-  not want this, then initialize `names` manually to the empty set.
+  By default, the namespace will be populated with Python keywords and the names
+  of builtins. If you do not want this, then initialize `names` manually to the
+  empty set.
   """
 
   names: Set[str] = dataclasses.field(
-      default_factory=lambda: set(keyword.kwlist))
+      default_factory=lambda: set(keyword.kwlist) | _BUILTIN_NAMES
+  )
 
   def __contains__(self, key: str) -> bool:
     """Returns True if a name is already defined.
